@@ -98,7 +98,9 @@ func c27(r *core.Run) {
 	r.Floor("R1.fields", 9)
 
 	// R2 census
-	named := func(n string) func(*types.Func) bool { return func(o *types.Func) bool { return o != nil && o.Name() == n } }
+	named := func(n string) func(*types.Func) bool {
+		return func(o *types.Func) bool { return o != nil && o.Name() == n }
+	}
 	if fn := mustFn(r, "R2.census", "stdlib", "ContractUpdateValidator", "Validate"); fn != nil {
 		census(r, "R2.census", fn, "checkDeclarationUpdatability", named("checkDeclarationUpdatability"), 3)
 	}
